@@ -36,6 +36,8 @@ type world struct {
 	accepted []bool
 	rejected []bool
 
+	silent bool // the pool was created without WithPanicOnSubmitAfterShutdown: the verdict of a Submit is resolved at the end
+
 	completed atomic.Bool // a shutdown completed and no Start was called since (set by the controller)
 	ranAfter  atomic.Int32
 	hangs     []string
@@ -46,8 +48,31 @@ func newWorld(w int, cancel bool) *world { return newWorldOpt(w, cancel, true) }
 // newWorldOpt: panicOnReject = WithPanicOnSubmitAfterShutdown (false: a rejected Submit returns silently; the harness
 // then knows the verdict of a Submit only where the schedule determines it).
 func newWorldOpt(w int, cancel, panicOnReject bool) *world {
-	return newWorldOn(workerpool.New("c16", workerpool.WithWorkerCount(w), workerpool.WithCancelPendingTasksOnShutdown(cancel),
+	wd := newWorldOn(workerpool.New("c16", workerpool.WithWorkerCount(w), workerpool.WithCancelPendingTasksOnShutdown(cancel),
 		workerpool.WithPanicOnSubmitAfterShutdown(panicOnReject)), w, cancel)
+	wd.silent = !panicOnReject
+
+	return wd
+}
+
+// resolveSilent: on a pool without the panic option a Submit returns the same way whether the task was accepted or not;
+// the event `ret T` logged at its return is turned into `acc T` / `rej T` once the case is over: without
+// cancel-on-shutdown a task was accepted if and only if it ran (silent mode is only used without cancel).
+func (wd *world) resolveSilent() {
+	wd.mu.Lock()
+	defer wd.mu.Unlock()
+	for i, e := range wd.events {
+		var t int
+		if n, _ := fmt.Sscanf(e, "ret %d", &t); n == 1 && t < len(wd.runs) {
+			if wd.runs[t].Load() > 0 {
+				wd.accepted[t] = true
+				wd.events[i] = fmt.Sprintf("acc %d", t)
+			} else {
+				wd.rejected[t] = true
+				wd.events[i] = fmt.Sprintf("rej %d", t)
+			}
+		}
+	}
 }
 
 // submitSilentRejected: a Submit on a pool without the panic option at a moment where the schedule says it must be
@@ -217,6 +242,11 @@ func (wd *world) submit(b body) (accepted bool) {
 	})
 	wd.mu.Lock()
 	defer wd.mu.Unlock()
+	if p == "" && wd.silent {
+		wd.events = append(wd.events, fmt.Sprintf("ret %d", t))
+
+		return true
+	}
 	if p == "" {
 		wd.accepted[t] = true
 		wd.events = append(wd.events, fmt.Sprintf("acc %d", t))
